@@ -84,7 +84,7 @@ def run_focus(prop, focus, tier, seed, extra_rule):
             flushed += 1
             ck.nontrivial(key)
         if len(ck.cov["samples"]) < 3:
-            ck.sample({"seed": s, "trace": [(e["ev"], e.get("op") or e.get("kind"), e["id"], e.get("text", "")) for e in ab if e["ev"] != "reset"][:14]})
+            ck.sample({"seed": s, "trace": [(e["ev"], e.get("op") or e.get("kind"), e.get("id", ""), e.get("text", "")) for e in ab if e["ev"] != "reset"][:14]})
         if ok:
             accepted.append((s, ab))
         else:
